@@ -87,6 +87,12 @@ def _session_names(func):
                     sids.add(N.txt(first))
                     # ... and what copy propagation makes of that local
                     sids.add('%s[0]' % N.txt(sub.value))
+            # the projection written out (or read through an accessor)
+            if isinstance(sub, ast.Subscript) and \
+                    N.txt(sub.value).endswith('zkclient.client_id') and \
+                    isinstance(sub.slice, ast.Constant) and \
+                    sub.slice.value == 0:
+                sids.add(N.txt(sub))
         _NAMES[key] = (metas, sids)
     return _NAMES[key]
 
@@ -516,6 +522,13 @@ def check(ctx):
                N.txt(s.value) == 'self.zkclient.client_id' and
                isinstance(s.targets[0], ast.Tuple) and
                len(s.targets[0].elts) == 2]
+        if not sid:
+            # the first component read directly (an accessor folded in)
+            sid = [s for s in K.walk_no_nested(func.node)
+                   if isinstance(s, ast.Subscript) and
+                   N.txt(s.value) == 'self.zkclient.client_id' and
+                   isinstance(s.slice, ast.Constant) and s.slice.value == 0]
+            sid = sid[:1] if len(set(N.txt(s) for s in sid)) == 1 else sid
         ctx.ob('C17.2', func, sid[0] if sid else None, len(sid) == 1,
                "session_id is the client's own session "
                '(zkclient.client_id)',
